@@ -90,10 +90,12 @@ type Engine struct {
 	// statistics
 	paths        int
 	aborted      int
+	abortReasons map[string]int
 	steps        int64
 	queries      int
 	solverTime   time.Duration
 	obligations  int
+	assertsSeen  int
 	violations   []*Violation
 	inconclusive []string
 	reached      map[string]bool
@@ -272,7 +274,12 @@ func (e *Engine) runPath(w *Worker, prefix []Decision) {
 	case nil:
 		completed = true
 	case *pathAbort:
-		_ = r
+		e.mu.Lock()
+		if e.abortReasons == nil {
+			e.abortReasons = map[string]int{}
+		}
+		e.abortReasons[r.Reason]++
+		e.mu.Unlock()
 	case *boundExceeded:
 		e.addInconclusive("BOUND-EXCEEDED: " + r.Where)
 	case *EngineError:
@@ -311,6 +318,7 @@ func (e *Engine) runPath(w *Worker, prefix []Decision) {
 		e.aborted++
 	}
 	e.steps += p.steps
+	e.assertsSeen += p.nAsserts
 	if len(p.taken) > e.maxDecisions {
 		e.maxDecisions = len(p.taken)
 	}
@@ -441,10 +449,12 @@ type HarnessResult struct {
 	Claim          string                   `json:"claim,omitempty"`
 	Paths          int                      `json:"paths_completed"`
 	Aborted        int                      `json:"paths_infeasible_or_aborted"`
+	AbortReasons   map[string]int           `json:"abort_reasons,omitempty"`
 	Steps          int64                    `json:"ssa_instructions"`
 	Queries        int                      `json:"queries"`
 	SolverS        float64                  `json:"solver_time_s"`
 	Obligations    int                      `json:"assertion_queries"`
+	AssertsSeen    int                      `json:"assertions_evaluated"`
 	Bounds         map[string]interface{}   `json:"bounds"`
 	Reach          map[string]bool          `json:"reach_witnesses"`
 	Funcs          []string                 `json:"functions_encoded"`
@@ -605,8 +615,8 @@ func cmdCheck(args []string) int {
 			reached: map[string]bool{}, funcs: map[string]bool{}, stubsUsed: map[string]bool{}}
 		e.deadline = time.Now().Add(time.Duration(cfg.BudgetS) * time.Second)
 		e.runAll()
-		res := &HarnessResult{Func: hc.Func, Claim: hc.Claim, Paths: e.paths, Aborted: e.aborted, Steps: e.steps, Queries: e.queries,
-			SolverS: e.solverTime.Seconds(), Obligations: e.obligations, Reach: map[string]bool{}, Solver: cfg.Solver,
+		res := &HarnessResult{Func: hc.Func, Claim: hc.Claim, Paths: e.paths, Aborted: e.aborted, AbortReasons: e.abortReasons, Steps: e.steps, Queries: e.queries,
+			SolverS: e.solverTime.Seconds(), Obligations: e.obligations, AssertsSeen: e.assertsSeen, Reach: map[string]bool{}, Solver: cfg.Solver,
 			Samples: e.samples, MaxDecisions: e.maxDecisions, ThreadSwitches: e.switches}
 		res.Bounds = map[string]interface{}{"unwind": cfg.Unwind, "preemptions": cfg.Preemptions, "params": cfg.Params, "query_timeout_ms": cfg.TimeoutMs}
 		for f := range e.funcs {
@@ -677,8 +687,8 @@ func cmdCheck(args []string) int {
 		}
 		res.WallS = time.Since(hs).Seconds()
 		results = append(results, res)
-		fmt.Printf("%s %s: paths=%d aborted=%d instrs=%d queries=%d solver=%.1fs assertions=%d violations=%d wall=%.1fs\n",
-			id, hc.Func, res.Paths, res.Aborted, res.Steps, res.Queries, res.SolverS, res.Obligations, res.Violations, res.WallS)
+		fmt.Printf("%s %s: paths=%d aborted=%d instrs=%d queries=%d solver=%.1fs assertions=%d(solver:%d) violations=%d wall=%.1fs\n",
+			id, hc.Func, res.Paths, res.Aborted, res.Steps, res.Queries, res.SolverS, res.AssertsSeen, res.Obligations, res.Violations, res.WallS)
 	}
 	writeEvidence(verifDir, id, tier, seed, &cc, results, totalViol, time.Since(start).Seconds(), loadS, exit)
 	return exit
